@@ -1091,6 +1091,98 @@ def do_fanx(params: tuple, prefix: List[int]) -> ExecResult:
 
 
 # ---------------------------------------------------------------------------------------------
+# the SECOND lifespan run through one dispatcher object (serve() called again in-process with the same application)
+#
+# Run 1: every mount answers at once and the stand-in server sends startup and shutdown back to back; the dispatcher
+# returns.  Run 2 is a fanx world (gated mounts, shutdown at the gate "quit") on the SAME dispatcher object: whatever
+# run 1 left behind on the object (completion flags, queues, channels) must not count for run 2.  The fan-out oracle is
+# applied to each run's part of the log.
+
+
+class RunCountingMount(MountApp):
+    """A mount whose lifespan program depends on the run: first call answers at once, later calls use the scripted one."""
+
+    def __init__(self, world: Any, apps: dict, mount: int) -> None:
+        super().__init__(world, apps, mount)
+        self.later = apps
+        self.calls = 0
+
+    async def __call__(self, scope: dict, receive: Any, send: Any) -> None:
+        if scope["type"] == "lifespan":
+            self.calls += 1
+            self.apps = dict(self.later, lifespan=[("lifespan_loop",)]) if self.calls == 1 else self.later
+        await super().__call__(scope, receive, send)
+
+
+class TwiceServer(ImpatientServer):
+    async def __call__(self, scope: dict, receive: Any, send: Any) -> None:
+        if scope["type"] != "lifespan":
+            return await self.app(scope, receive, send)
+        w = self.world
+        first = iter([{"type": "lifespan.startup"}, {"type": "lifespan.shutdown"}])
+
+        async def receive1() -> dict:
+            return next(first)
+
+        async def send1(message: dict) -> None:
+            if not w.finished:
+                w.fanlog.append(("outer", None, message.get("type")))
+
+        await self.app({"type": "lifespan", "asgi": dict(scope["asgi"]), "state": {}}, receive1, send1)
+        if not w.finished:
+            w.fanlog.append(("server", None, "run-2"))
+        await super().__call__(scope, receive, send)
+
+
+def fan2_build(params: tuple) -> Tuple[str, dict]:
+    engine, sc = fanx_build(params)
+    _, _, programs = params
+    paths = ["/m%d" % i for i in range(len(programs))]
+
+    def factory(world: Any) -> Any:
+        from hypercorn.app_wrappers import ASGIWrapper
+        from hypercorn.middleware.dispatcher import AsyncioDispatcherMiddleware, TrioDispatcherMiddleware
+
+        world.fanlog = []
+        mounts = {}
+        for i, (p, prog) in enumerate(zip(paths, programs)):
+            mounts[p] = RunCountingMount(world, {"lifespan": fanx_program(prog, i), "*": [("recv_until_disconnect",)]}, i)
+        cls = AsyncioDispatcherMiddleware if engine == "asyncio" else TrioDispatcherMiddleware
+        return ASGIWrapper(TwiceServer(world, cls(mounts)))
+
+    sc["app_factory"] = factory
+    return engine, sc
+
+
+def do_fan2(params: tuple, prefix: List[int]) -> ExecResult:
+    engine, sc = fan2_build(params)
+    w = run_world(engine, sc, prefix)
+    _, _, programs = params
+    full = list(w.fanlog)
+    cut = next((i for i, e in enumerate(full) if e == ("server", None, "run-2")), None)
+    viol = generic_violations(w)
+    if cut is None:
+        viol.append(V("harness-problem", f"{engine}:fan2:first-run-incomplete", f"programs {programs} log {full}"))
+    else:
+        for run, part in (("run1", full[:cut]), ("run2", full[cut + 1:])):
+            w.fanlog = part
+            viol += fan_oracle(w, ("fan2", f"{engine}:{run}", programs))
+        w.fanlog = full
+        sent = {(m, t) for who, m, t in full[cut + 1:] if who == "mount"}
+        if not any(t == "dispatcher-returned" for who, _, t in full[cut + 1:] if who == "server"):
+            viol.append(V("harness-problem", f"{engine}:fan2:history-incomplete", f"programs {programs} log {full}"))
+        elif len(sent) != 2 * len(programs):
+            viol.append(V("harness-problem", f"{engine}:fan2:mount-messages", f"programs {programs} log {full}"))
+    if os.environ.get("MC_VERBOSE"):
+        describe(w)
+        print("fan-out log:", full)
+    obs = (default_observation(w), tuple(full))
+    choices = w.chooser.choices
+    sample = {"params": repr(params), "choices": choices[:40], "fanlog": [list(map(str, x)) for x in full][:20]}
+    return ExecResult(w.chooser.trace, viol, digest(obs), bool(w.instances) and any(choices), w.sigs, sample)
+
+
+# ---------------------------------------------------------------------------------------------
 # end to end through the real TCPServer
 
 OK_APP = [("recv_body",), ("send", {"type": "http.response.start", "status": 200, "headers": [(b"content-length", b"2")]}),
@@ -1316,6 +1408,7 @@ def scenarios(tier: str) -> List[Any]:
     for engine in ("asyncio", "trio"):
         fams += [("fan", engine, p) for p in progs2 + progs3]
         fams += [("fanx", engine, p) for p in fanx_tables(tier)]
+        fams += [("fan2", engine, p) for p in fanx_tables(tier)]  # the same worlds as the second run of one dispatcher object
         fams += [("e2e", engine, i) for i in range(len(E2E))]
         for ti in range(len(DS_TABLES)):
             nreq = range(len(DS_REQS))
@@ -1382,7 +1475,7 @@ def cases(fam: tuple, tier: str) -> List[tuple]:
 def bounds(tier: str, params: Any) -> dict:
     if params[0] in ("e2e", "ds"):
         return {"M": 0, "S": 0, "R": 0}
-    if params[0] == "fanx":  # (small worlds: 3-6 events)
+    if params[0] in ("fanx", "fan2"):  # (small worlds: 3-6 events)
         r = 1 if params[1] == "trio" else 0
         if len(params[2]) > 2:
             return {"M": 1, "S": 2, "R": r}
@@ -1404,6 +1497,8 @@ def execute(params: Any, prefix: List[int]) -> ExecResult:
         return do_e2e(params, prefix)
     if params[0] == "fanx":
         return do_fanx(params, prefix)
+    if params[0] == "fan2":
+        return do_fan2(params, prefix)
     if params[0] == "ds":
         return do_ds(params, prefix)
     try:
@@ -1421,7 +1516,7 @@ def _tuplify(o: Any) -> Any:
 
 
 def explore_item_custom(params: Any, tier: str, deadline: float) -> dict:
-    if params[0] in ("fan", "fanx", "e2e", "ds"):
+    if params[0] in ("fan", "fanx", "fan2", "e2e", "ds"):
         seen: set = set()
 
         def once(p: Any, prefix: List[int]) -> ExecResult:
